@@ -22,7 +22,7 @@ lines (TAB separated; bits as 0/1, '-' = empty; booleans 0/1):
   C19 arrx  <dtype> <bits>                           -> ok roundtrip               (other unscaled dtypes: implementation + oracle only)
 """
 from harness.common import *
-import io, re, math, itertools, tempfile, shutil
+import io, re, math, itertools, tempfile, shutil, sys
 
 # ---------------------------------------------------------------------------------------------- GENERATED layer
 # MAX_CHARS, the *_bits2chars graphs and the default pp group sizes are re-read from the working tree on every run
@@ -982,6 +982,51 @@ def gen(rng, tier):
                     yield SEP.join(["C19", "arr", kind, str(n), wire(bits)])
     for kind, n, total in (("uint", 1004, 1001), ("int", 2000, 1500), ("uint", 1004, 1000), ("hex", 1004, 2008 + 1003), ("uint", 1200, 999)):
         yield SEP.join(["C19", "arr", kind, str(n), wire(rand_bits(rng, total))])
+    # float-like dtypes: structured items (signed zeros, subnormals, extremes, values that need every significant digit);
+    # the round trip is judged on the item encodings (data and dtype equal), not on float equality
+    def fbits(pattern, nbits, little=False):
+        b = pattern.to_bytes(nbits // 8, "little" if little else "big")
+        return "".join(format(x, "08b") for x in b)
+
+    special = {
+        16: [0x0000, 0x8000, 0x0001, 0x8001, 0x03ff, 0x0400, 0x8400, 0x7bff, 0xfbff, 0x3c00, 0xbc00, 0x2e66, 0x3555, 0x3c01, 0x7bfe, 0x0200, 0x4248],
+        32: [0x00000000, 0x80000000, 0x00000001, 0x80000001, 0x007fffff, 0x00800000, 0x7f7fffff, 0xff7fffff, 0x3f800000, 0x3dcccccd,
+             0x3eaaaaab, 0x4b800000, 0x4b800001, 0x4b7fffff, 0x3f800001, 0x33800000, 0x40490fdb, 0x501502f9],
+        64: [0x0000000000000000, 0x8000000000000000, 0x0000000000000001, 0x800fffffffffffff, 0x0010000000000000, 0x7fefffffffffffff,
+             0xffefffffffffffff, 0x3fb999999999999a, 0x3fd5555555555555, 0x3ff0000000000001, 0x4340000000000000, 0x4340000000000001,
+             0x400921fb54442d18, 0x3ff0000000000000],
+        "bf": [0x0000, 0x8000, 0x0001, 0x8001, 0x007f, 0x0080, 0x7f7f, 0xff7f, 0x3dcd, 0x3eab, 0x3f80, 0x3f81, 0xbf80, 0x4049],
+    }
+    native_little = sys.byteorder == "little"
+    fdts = [("float16", 16, False), ("float32", 32, False), ("float64", 64, False), ("floatbe16", 16, False), ("floatbe64", 64, False),
+            ("floatle16", 16, True), ("floatle32", 32, True), ("floatle64", 64, True), ("floatne32", 32, native_little),
+            ("floatne16", 16, native_little), ("bfloat", "bf", False), ("bfloatbe", "bf", False), ("bfloatle", "bf", True),
+            ("bfloatne", "bf", native_little)]
+    for dt, key, little in fdts:
+        nb = 16 if key == "bf" else key
+        pats = special[key]
+        for pt in pats:                                            # one item each, so that one bad value cannot hide
+            yield SEP.join(["C19", "arrx", dt, fbits(pt, nb, little)])
+        yield SEP.join(["C19", "arrx", dt, "".join(fbits(pt, nb, little) for pt in pats)])
+        yield SEP.join(["C19", "arrx", dt, "".join(fbits(pt, nb, little) for pt in pats[:3]) + "101"])
+        for _ in range(40 if big else 6):                          # random finite items (exponent field not all ones)
+            k = rng.choice([1, 2, 5])
+            items = []
+            while len(items) < k:
+                v = rng.getrandbits(nb)
+                ebits, eshift = {16: (0x1f, 10), 32: (0xff, 23), 64: (0x7ff, 52)}[nb] if key != "bf" else (0xff, 7)
+                if (v >> eshift) & ebits != ebits:
+                    items.append(v)
+            yield SEP.join(["C19", "arrx", dt, "".join(fbits(v, nb, little) for v in items)])
+    # every code of the small formats, one item per Array (non-finite codes are skipped by the oracle)
+    for dt, nb in (("p3binary", 8), ("p4binary", 8), ("e4m3mxfp", 8), ("e5m2mxfp", 8), ("mxint", 8), ("e8m0mxfp", 8),
+                   ("e3m2mxfp", 6), ("e2m3mxfp", 6), ("e2m1mxfp", 4)):
+        codes = list(range(2 ** nb))
+        if not big and nb == 8:
+            codes = sorted(set([0x00, 0x80, 0x01, 0x81, 0x7f, 0xff, 0x7e, 0xfe, 0x7b, 0xfb, 0x08, 0x88, 0x38, 0x3c, 0x40] + rng.sample(codes, 48)))
+        for c in codes:
+            yield SEP.join(["C19", "arrx", dt, format(c, "0%db" % nb)])
+        yield SEP.join(["C19", "arrx", dt, "".join(format(c, "0%db" % nb) for c in rng.sample(range(2 ** nb), 8))])
     for dt, n in (("float16", 16), ("float32", 32), ("float64", 64), ("floatle32", 32), ("floatbe64", 64), ("bfloat", 16), ("bfloatle", 16),
                   ("p3binary", 8), ("p4binary", 8), ("uintle16", 16), ("intbe24", 24), ("uintne32", 32), ("intle64", 64), ("bits5", 5), ("bits8", 8),
                   ("bytes1", 8), ("bytes2", 16), ("bytes3", 24), ("e4m3mxfp", 8), ("e5m2mxfp", 8), ("e2m1mxfp", 4), ("e3m2mxfp", 6), ("mxint", 8)):
